@@ -143,11 +143,19 @@ func TestVerif_C06_parse(t *testing.T) {
 
 func c06EnumHosts() []c06HostForm {
 	var hs []c06HostForm
-	for _, s := range []string{"127.0.0.1", "10.1.2.3", "8.8.8.8", "0.0.0.0", "192.168.0.1"} {
+	v4s := []string{"127.0.0.1", "10.1.2.3", "8.8.8.8", "0.0.0.0", "192.168.0.1"}
+	v6s := []string{"::1", "fe80::1", "fc00::1", "2001:db8::1", "::"}
+	zones := []string{"lo", "a%b", ""}
+	if vh.Thorough() {
+		v4s = append(v4s, "172.16.0.1", "172.32.0.0", "169.254.169.254", "255.255.255.255", "100.64.0.1", "127.255.255.255", "9.255.255.255")
+		v6s = append(v6s, "fe81::1", "fd00::2", "::2", "::7f00:1", "2002:7f00:1::1", "ff02::1")
+		zones = c06Zones
+	}
+	for _, s := range v4s {
 		hs = append(hs, c06V4Forms(netip.MustParseAddr(s))...)
 	}
-	for _, s := range []string{"::1", "fe80::1", "fc00::1", "2001:db8::1", "::"} {
-		for _, z := range []string{"lo", "a%b", ""} {
+	for _, s := range v6s {
+		for _, z := range zones {
 			hs = append(hs, c06V6Forms(netip.MustParseAddr(s), z)...)
 		}
 	}
@@ -186,7 +194,7 @@ var c06EnumScripts = []c06Script{
 }
 
 func TestVerif_C06_enum(t *testing.T) {
-	rec := vh.NewRec("C06", "enum", "exhaustive cross product: every textual form of {127.0.0.1, 10.1.2.3, 8.8.8.8, 0.0.0.0, 192.168.0.1, ::1, fe80::1, fc00::1, 2001:db8::1, ::} (zones lo / a%b / empty), the host-name list, empty host x every port text x 9 configurations (none, shipped, shipped+public addrs, allowlist, allowlisted hole in a blocklisted net, block everything, pattern matching the empty host, patterns matching literals, v4-mapped blocklist prefixes) x 2 wildcard resolver scripts (all names -> loopback; all names -> public+private records) for inputs that are not literals. Non-trivial and distinct as in parse")
+	rec := vh.NewRec("C06", "enum", "exhaustive cross product: every textual form of {127.0.0.1, 10.1.2.3, 8.8.8.8, 0.0.0.0, 192.168.0.1, ::1, fe80::1, fc00::1, 2001:db8::1, ::} (zones lo / a%b / empty; thorough: 13 more addresses, 11 zones), the host-name list, empty host x every port text x 9 configurations (none, shipped, shipped+public addrs, allowlist, allowlisted hole in a blocklisted net, block everything, pattern matching the empty host, patterns matching literals, v4-mapped blocklist prefixes) x 2 wildcard resolver scripts (all names -> loopback; all names -> public+private records) for inputs that are not literals. Non-trivial and distinct as in parse")
 	defer rec.Flush()
 	rec.Require("in:literal-forbidden", "in:literal-permitted", "in:canonical", "in:domain-match", "out:rewritten", "out:name-accepted", "dns:queried", "form:empty-host")
 	d := c06InstallResolver(t)
@@ -284,6 +292,11 @@ func TestVerif_C06_resolve(t *testing.T) {
 			// make sure most scripts start by answering something
 			e := c06Epoch{AMode: "answer", A: c06GenAnswers(rt, cfg, false, "a0"), AAAAMode: "answer", AAAA: c06GenAnswers(rt, cfg, true, "aaaa0")}
 			sc.Epochs = append([]c06Epoch{e}, sc.Epochs...)
+		}
+		if rapid.IntRange(0, 5).Draw(rt, "failfirst") == 0 {
+			// a first query that fails, so that one lookup consumes more than one epoch (resolver retry)
+			m := rapid.SampledFrom([]string{"servfail", "timeout", "drop"}).Draw(rt, "failmode")
+			sc.Epochs = append([]c06Epoch{{AMode: m, AAAAMode: m}}, sc.Epochs...)
 		}
 		c := c06Case{Covert: name + ":" + port, Cfg: cfg, Script: sc, Labels: []string{"form:hostname"}}
 		c06Check(rt, rec, d, c)
